@@ -84,6 +84,11 @@ pub enum Family {
     LowEntropy,
     /// random / text / random / text quarters (LZMA2: uncompressed chunk first, then LZMA chunks)
     Sandwich,
+    /// a short zero prefix, then incompressible runs of about one stored LZMA2 chunk (64.3-64.7 KB)
+    /// each followed by a region dense with short matches (a copy of earlier bytes with every k-th
+    /// byte altered): stored chunks whose size, together with the optimum parser's read-ahead,
+    /// ends up just above 64 KiB, next to window moves
+    StoredRuns,
 }
 
 pub const FAMILIES: [Family; 12] = [
@@ -116,6 +121,7 @@ impl Family {
             Family::Mixed => "mixed",
             Family::LowEntropy => "lowent",
             Family::Sandwich => "sandwich",
+            Family::StoredRuns => "stored-runs",
         }
     }
 }
@@ -258,6 +264,28 @@ pub fn gen_data(r: &mut Rng, fam: Family, len: usize) -> Vec<u8> {
                 let f = if i % 2 == 0 { Family::Random } else { Family::Text };
                 let d = gen_data(r, f, n);
                 out.extend_from_slice(&d);
+            }
+        }
+        Family::StoredRuns => {
+            let z = r.usize_below(9000).min(len);
+            out.extend(std::iter::repeat(0u8).take(z));
+            while out.len() < len {
+                let run = 64_300 + r.usize_below(400);
+                let rb = r.bytes(run);
+                out.extend_from_slice(&rb);
+                let n = 1500 + r.usize_below(2500);
+                let back = 3000 + r.usize_below(2000);
+                let step = 6 + r.usize_below(34);
+                if out.len() > back + n {
+                    let a = out.len() - back;
+                    let mut region = out[a..a + n.min(back)].to_vec();
+                    let mut k = 0;
+                    while k < region.len() {
+                        region[k] ^= 0x55;
+                        k += step;
+                    }
+                    out.extend_from_slice(&region);
+                }
             }
         }
         Family::LowEntropy => {
